@@ -367,7 +367,9 @@ def run(ctx):
                     "relations of NumTheoryDef (Trace_C12); log2 bounds by a rigorous interval enclosure, f32 patterns are "
                     "sampled on a lattice, not enumerated",
         extra={"log2_bounds_checked": chk, "log2_bounds_undecided": und},
-        required_cover=["op:gcd", "op:root", "op:ilog", "op:remove", "op:log2", "op:prim", "prim:u8", "prim:u16", "build:nostd",
+        required_cover=(["branch:gcd-ext:euclid-step-with-top-quotient-word", "branch:lehmer-ext:step-out-of-order", "branch:lehmer:step-out-of-order"]
+                        if fw.has_probe() else []) +      # counted by the library itself (hook: integer/src/verif_probe.rs)
+                       ["op:gcd", "op:root", "op:ilog", "op:remove", "op:log2", "op:prim", "prim:u8", "prim:u16", "build:nostd",
                         "profile:release", "gcd:0-0", "gcd:one-zero", "gcd:equal", "gcd:one-divides-other", "gcd:both-large",
                         "gcd:large-with-word", "gcd:large-with-dword", "gcd:small", "gcd:trailing-zero-words",
                         "gcd:negative-operand", "gcd:negative-coefficient", "fam:gfib", "fam:gkk1", "fam:glehmer", "fam:gtz",
